@@ -5,22 +5,25 @@ HARNESS = "c10_cut"
 RULE = ("case = sequence of 1..3 connection attempts of a real QXmppClient against the scripted loopback server; every attempt = (script "
         "variant in {SASL+bind, SASL+bind+SM resumable, SASL+bind+SM not resumable, SASL2+bind2 with inline SM}, server accepts or refuses "
         "a resumption request, cut point in {after accept, after first features, after SASL success, after post-auth features, after the "
-        "resume answer, after the bind result, after <enabled/>, after the session is established and a request was issued}, RST or FIN); "
-        "all attempts but the last are cut, the last runs to completion; the full product is enumerated (quick: FIN only at three cut "
-        "points and only in the first of two attempts; thorough: RST and FIN everywhere). Oracle after each cut: Disconnected state, not "
+        "resume answer, after the bind result, after <enabled/>, after the session is established and a request was issued}, loss kind in "
+        "{RST, FIN, see-other-host stream error pointing back at the harness (the client reconnects by itself), the same followed by "
+        "</stream:stream> in one write}); "
+        "all attempts but the last are cut, the last runs to completion; the full product is enumerated (quick: FIN at three and redirects at "
+        "four cut points, not in the first of three attempts; thorough: every loss kind everywhere). A redirect that the client does not "
+        "follow counts as a plain loss; after a followed redirect no session may be reported on the fresh connection. Oracle after each cut: Disconnected state, not "
         "connected, not authenticated, no connected() before the last negotiation element; outstanding requests complete (error) unless "
         "the session was resumable; every following attempt starts with a fresh header and replays the negotiation; on establishment: "
         "exactly one connected(), state Connected, streamManagementState consistent with the server's answer, requests of earlier "
         "non-resumed sessions complete. non-trivial = histories with at least one cut")
 ASSUME = ["reconnection by QXmppClient::connectToServer(configuration()) (auto-reconnect timer disabled)",
-          "legacy session establishment (<session/>) and see-other-host redirects are not part of this enumeration",
+          "legacy session establishment (<session/>) is not part of this enumeration; redirects point back at the same scripted server",
           "disconnected() signal counts are not constrained (the statement does not)"]
 
 
 def run(tier):
     return enum_check(PROP, HARNESS, tier, "fault_enumeration", RULE, ASSUME,
                       witness=["final_resumed", "final_new_session", "cuts:after-accept", "cuts:after-session-established", "cuts:after-resume-answer",
-                               "cuts:after-enabled", "cuts:after-sasl-success"])
+                               "cuts:after-enabled", "cuts:after-sasl-success", "redirects_followed", "redirects_given_up"])
 
 
 def replay(path):
